@@ -290,6 +290,17 @@ func genProducer(c *cf.Case, r *cf.Rng, prop string) {
 			// keys irrelevant; keep some
 		}
 		op.ValLen = r.Range(0, valMax)
+		if prop == "C16" && r.Intn(4) == 0 {
+			// straddle the rejection limit for both overhead estimates
+			kl := op.KeyLen
+			if kl < 0 {
+				kl = 0
+			}
+			op.ValLen = cfg.MaxMessageBytes - kl - r.Range(18, 44)
+			if op.ValLen < 0 {
+				op.ValLen = 0
+			}
+		}
 		if headersOK && r.Intn(4) == 0 {
 			op.Headers = r.Range(1, 3)
 		}
